@@ -8,6 +8,8 @@ package main
 import (
 	"context"
 	"encoding/json"
+	"errors"
+	"regexp"
 	"net/http/httptest"
 	"runtime"
 	"sort"
@@ -17,8 +19,10 @@ import (
 	"sync/atomic"
 	"time"
 
+	"github.com/influxdata/influxdb/v2/cmd/influxd/run"
 	ihttp "github.com/influxdata/influxdb/v2/http"
 	"github.com/influxdata/influxdb/v2/kit/check"
+	"go.uber.org/zap"
 	"verif/harness/h"
 )
 
@@ -26,6 +30,7 @@ type cell struct {
 	kind  byte // 'g' gate, 'p' plain, 'f' freshness
 	gate  *check.ReadyGate
 	fresh *check.FreshnessResponse
+	sched *fakeSched
 	mu    sync.Mutex
 	st    check.Status
 	msg   string
@@ -37,11 +42,34 @@ func (c *cell) answer(name string) check.Response {
 	return check.NewBasicResponse(name, c.st, c.msg, nil)
 }
 
+// fakeSched is the NextRunScheduled a SchedulerPulseCheck looks at.
+type fakeSched struct {
+	mu    sync.Mutex
+	state string
+}
+
+func (f *fakeSched) When() time.Time {
+	f.mu.Lock()
+	defer f.mu.Unlock()
+	switch f.state {
+	case "idle":
+		return time.Time{}
+	case "future":
+		return time.Now().Add(time.Hour + 200*time.Millisecond)
+	case "ontime":
+		return time.Now().Add(-time.Second - 100*time.Millisecond)
+	case "stalled":
+		return time.Now().Add(-time.Hour - 100*time.Millisecond)
+	}
+	panic("bad pulse state " + f.state)
+}
+
 type runner struct {
-	hd     *ihttp.HealthReadyHandler
-	ready  []*cell
-	health []*cell
-	gates  map[string]*check.ReadyGate
+	hd       *ihttp.HealthReadyHandler
+	ready    []*cell
+	health   []*cell
+	gates    map[string]*check.ReadyGate
+	startups []*run.StartupProgressLogger
 }
 
 func newRunner() h.CaseRunner {
@@ -56,10 +84,18 @@ type wireCheck struct {
 	Message string `json:"message"`
 }
 
+var (
+	rePct     = regexp.MustCompile(`^loading shards [0-9.]+%`)
+	reElapsed = regexp.MustCompile(`^(ready: [0-9]+ shards loaded in ).*$`)
+)
+
+// canonMsg removes what depends on the wall clock or on float formatting.
 func canonMsg(m string) string {
 	if strings.HasPrefix(m, "stale: ") {
 		return "stale"
 	}
+	m = rePct.ReplaceAllString(m, "loading shards ?%")
+	m = reElapsed.ReplaceAllString(m, "${1}?")
 	return m
 }
 
@@ -134,6 +170,50 @@ func (r *runner) Op(t []string) string {
 		r.hd.AddNamedHealthCheck(check.Named(s(1), check.CheckerFunc(func(context.Context) check.Response { return f })))
 		r.health = append(r.health, &cell{kind: 'f', fresh: f})
 		return "ok"
+	case t[0] == "sl" && len(t) == 2:
+		u := run.NewStartupProgressLogger(s(1), zap.NewNop())
+		r.hd.AddNamedReadyCheck(u.ReadyChecker())
+		r.hd.AddNamedHealthCheck(u.HealthChecker())
+		r.ready = append(r.ready, &cell{kind: 's'})
+		r.health = append(r.health, &cell{kind: 's'})
+		r.startups = append(r.startups, u)
+		return "ok"
+	case t[0] == "se" && len(t) == 3:
+		k := int(h.Atoi(t[1]))
+		if k >= len(r.startups) {
+			return "bad-op"
+		}
+		u := r.startups[k]
+		ev := strings.Split(t[2], ".")
+		switch {
+		case ev[0] == "add" && len(ev) == 1:
+			u.AddShard()
+		case ev[0] == "done" && len(ev) == 1:
+			u.CompletedShard()
+		case ev[0] == "fail" && len(ev) == 3:
+			u.ShardLoadFailed(uint64(h.Atoi(ev[1])), errors.New(string(h.MustUnHex(ev[2]))))
+		case ev[0] == "fin" && len(ev) == 1:
+			u.Finish(nil)
+		case ev[0] == "finerr" && len(ev) == 2:
+			u.Finish(errors.New(string(h.MustUnHex(ev[1]))))
+		default:
+			return "bad-op"
+		}
+		return "ok"
+	case t[0] == "sp" && len(t) == 3:
+		f := &fakeSched{state: t[2]}
+		r.hd.AddNamedHealthCheck(check.Named(s(1), run.NewSchedulerPulseCheck(f, run.DefaultSchedulerPulseThreshold)))
+		r.health = append(r.health, &cell{kind: 'q', sched: f})
+		return "ok"
+	case t[0] == "ss" && len(t) == 3:
+		i := int(h.Atoi(t[1]))
+		if i >= len(r.health) || r.health[i].kind != 'q' {
+			return "bad-op"
+		}
+		r.health[i].sched.mu.Lock()
+		r.health[i].sched.state = t[2]
+		r.health[i].sched.mu.Unlock()
+		return "ok"
 	case t[0] == "sig" && len(t) == 3:
 		i := int(h.Atoi(t[1]))
 		if i >= len(r.ready) || r.ready[i].kind != 'g' {
@@ -188,6 +268,13 @@ func (r *runner) Op(t []string) string {
 // which path spelling a request uses does not matter to the model
 var pathRand = h.NewRand(7)
 
+// spin keeps a signalling goroutine busy for about a microsecond (inside the
+// operation's interval) so that signals overlap the much slower requests
+func spin() {
+	for t0 := time.Now(); time.Since(t0) < time.Microsecond; {
+	}
+}
+
 type hop struct {
 	thread, idx int
 	inv, res    int64
@@ -198,7 +285,7 @@ type hop struct {
 // conc runs the threads' programs concurrently against the handler.
 func (r *runner) conc(prog string) string {
 	threads := strings.Split(prog, "|")
-	var ctr atomic.Int64
+	var ctr, arrived atomic.Int64
 	var mu sync.Mutex // guards r.gates and hist
 	var hist []hop
 	var wg sync.WaitGroup
@@ -212,6 +299,10 @@ func (r *runner) conc(prog string) string {
 		go func(ti int, ops []string) {
 			defer wg.Done()
 			<-start
+			// spin barrier: all goroutines leave it within nanoseconds of each other
+			arrived.Add(1)
+			for arrived.Load() < int64(len(threads)) {
+			}
 			local := make([]hop, 0, len(ops))
 			for i, o := range ops {
 				p := strings.SplitN(o, ".", 2)
@@ -242,8 +333,10 @@ func (r *runner) conc(prog string) string {
 					}
 				case "s1":
 					g.Ready()
+					spin()
 				case "s0":
 					g.Unready()
+					spin()
 				case "rg":
 					r.hd.AddNamedReadyCheck(g)
 				default:
@@ -286,12 +379,14 @@ func (r *runner) conc(prog string) string {
 // ---------------------------------------------------------------- generator
 
 var statuses = []string{"pass", "pass", "pass", "pass", "pass", "pass", "fail", "fail", "fail", "", "warn", "PASS"}
+var pulseStates = []string{"idle", "future", "ontime", "stalled"}
 var msgs = []string{"", "", "down", "unreachable", "50% loaded", "not ready", "x", "disk full: /var"}
 
 func genSeq(r *h.Rand, big bool) []string {
 	var ops []string
 	type ent struct{ kind byte }
 	var ready, health []ent
+	nstart := 0
 	n := 10 + r.Intn(40)
 	capList := 12 // lists this small are sorted by insertion sort (stable) in Go too, so duplicate names are predictable
 	unique := big
@@ -327,16 +422,38 @@ func genSeq(r *h.Rand, big bool) []string {
 		case x < 27 && len(health) < capList:
 			ops = append(ops, "hf "+h.HexS(name("f", len(health)))+" "+h.B(r.Chance(0.3)))
 			health = append(health, ent{'f'})
+		case x < 29 && len(health) < capList && len(ready) < capList:
+			ops = append(ops, "sl "+h.HexS(name("s", len(ready))))
+			ready = append(ready, ent{'s'})
+			health = append(health, ent{'s'})
+			nstart++
+		case x < 31 && len(health) < capList:
+			ops = append(ops, "sp "+h.HexS(name("q", len(health)))+" "+h.Pick(r, pulseStates))
+			health = append(health, ent{'q'})
+		case x < 40 && nstart > 0:
+			ev := h.Pick(r, []string{"add", "add", "done", "fin", "fin", "finerr." + h.HexS(h.Pick(r, []string{"engine open failed", "disk full"})),
+				"fail." + strconv.Itoa(r.Intn(100)) + "." + h.HexS(h.Pick(r, []string{"corrupt index", "bad tsm: x"}))})
+			ops = append(ops, "se "+strconv.Itoa(r.Intn(nstart))+" "+ev)
 		case x < 50 && len(ready) > 0:
 			i := r.Intn(len(ready))
-			if ready[i].kind == 'g' {
+			switch ready[i].kind {
+			case 'g':
 				ops = append(ops, "sig "+strconv.Itoa(i)+" "+h.B(r.Chance(0.7)))
-			} else {
+			case 'p':
 				ops = append(ops, "sr "+strconv.Itoa(i)+" "+h.HexS(status())+" "+h.HexS(h.Pick(r, msgs)))
+			default:
+				ops = append(ops, "ready")
 			}
 		case x < 62 && len(health) > 0:
 			i := r.Intn(len(health))
-			ops = append(ops, "sh "+strconv.Itoa(i)+" "+h.HexS(status())+" "+h.HexS(h.Pick(r, msgs)))
+			switch health[i].kind {
+			case 'p', 'f':
+				ops = append(ops, "sh "+strconv.Itoa(i)+" "+h.HexS(status())+" "+h.HexS(h.Pick(r, msgs)))
+			case 'q':
+				ops = append(ops, "ss "+strconv.Itoa(i)+" "+h.Pick(r, pulseStates))
+			default:
+				ops = append(ops, "health")
+			}
 		case x < 80:
 			ops = append(ops, "ready")
 		case x < 97:
@@ -364,15 +481,27 @@ func genConc(r *h.Rand, tier string) []string {
 	ops = append(ops, "ready")
 	nt := 2 + r.Intn(5)
 	var threads []string
+	storm := r.Chance(0.4) && len(known) > 0 // togglers hammering the initial gates while the others mostly read
 	for t := 0; t < nt; t++ {
 		mine := append([]string(nil), known...)
 		nops := 5 + r.Intn(40)
 		var p []string
 		nreg := 0
+		if storm && t%2 == 0 {
+			g := h.Pick(r, known)
+			for i := 0; i < 400+r.Intn(400); i++ {
+				p = append(p, h.Pick(r, []string{"s1", "s0"})+"."+h.HexS(g))
+			}
+			threads = append(threads, strings.Join(p, "+"))
+			continue
+		}
+		if storm {
+			nops = 30 + r.Intn(60)
+		}
 		for i := 0; i < nops; i++ {
 			x := r.Intn(100)
 			switch {
-			case x < 45:
+			case x < 45 || (storm && x < 85):
 				p = append(p, "rd")
 			case x < 55 && nreg < 4:
 				n := "t" + strconv.Itoa(t) + "n" + strconv.Itoa(nreg)
